@@ -242,3 +242,47 @@ def units(prop, tier):
     for b in BUFFERS:
         out.append(pyvc_unit(prop, 'enc.pkcs1v15.decrypt.' + b, (lambda b=b: registry('decrypt:' + b)), [C + 'PKCS115_Cipher.decrypt']))
     return out
+
+
+# ====================================================================================================================
+# GENUINE FINDINGS (natively confirmed; obligations left registered).  All are in PKCS115_Cipher.decrypt and have one root: the
+# return value -1 of the C decoder ("arguments refused": n < 12, or expected > n - 11, or sentinel longer than em) is not handled
+# on the bytes-sentinel path (`output` is still all zero, `output[-1:]` == b'\x00' is returned), the C decoder refuses k == 11
+# although RFC 8017 7.2.1 admits it (mLen <= k - 11), and c_size_t(expected_pt_len) wraps modulo 2**64.
+#   F1  decrypt.ensures.length_too_long      key = RSA.generate(1024) (k = 128), ct = encrypt(b'hello'):
+#         decrypt(ct, b'SENTINEL', 118) -> b'\x00'   (also expected_pt_len = 128, 10**6; sentinel b'' or any bytes of <= k octets);
+#         neither the message nor the sentinel.  Non-bytes / over-long sentinels come back correctly.
+#   F2  decrypt.ensures.length_not_a_size_t  same key/ct: decrypt(ct, b'SENTINEL', -1) -> b'\x00';
+#         decrypt(ct, None, 2**64) -> b'hello' and decrypt(ct, None, 2**64 + 5) -> b'hello' (len(M) != expected_pt_len, the sentinel is due).
+#   F3  decrypt.ensures.k11_message / k11_sentinel   88-bit key (k = 11): RSA.construct((n, 65537, d, p, q)), p = 12740777371841,
+#         q = 13624841065487, n = 173591066742086790030751567, d = 142809953987288552155489793; c = PKCS1_v1_5.new(key);
+#         ct = c.encrypt(b'') (EM = 00 02 <8 non-zero> 00, valid):  c.decrypt(ct, None) -> None,  c.decrypt(ct, b'SENT') -> b'\x00',
+#         expected b''.  For every k <= 11 and any ciphertext, a bytes sentinel of <= k octets comes back as b'\x00'.
+#   On the unchanged tree exactly these four clauses fail (72 path instances over the 3 ciphertext types x 6 sentinel types);
+#   decrypt.ensures.message / .sentinel (k >= 12, 0 <= expected_pt_len <= k - 11) and both `raises` hold for every sentinel.
+#
+# NOT PROVED: termination of the PS rejection loop of encrypt (probabilistic; not claimed).
+# NOT STATED: keys of more than 2**31 - 1 octets (`requires` of decrypt and of the wrapper: the C decoder reports positions in an
+#   `int`; contracts/c/pkcs1_decode.py has the same int_range precondition); allocation failure inside the C decoder.
+# ASSUMED: the C function pkcs1_decode (DESIGN "### C07", proved by the C engine); RsaKey._decrypt_to_bytes == I2OSP(c^d mod n, k)
+#   (sig_common); randfunc as a tape; bytes_to_long / long_to_bytes == OS2IP / I2OSP (sig_common); the in-place write (a)/(b) above.
+# Facts about spec functions used where they are opaque: eme_pkcs1_v15_sep, eme_pkcs1_v15_padded, octets -- PROVED (unit spec_lemmas).
+#
+# Mutants (tools/mut.py C07 ... --only <unit>), obligation that caught each ("baseline" = only the four finding clauses fail):
+#   PKCS1_v1_5.py encrypt  `mLen > k - 11` -> `k - 10`                      exit 1  encrypt.raises_iff.ValueError.if, ensures.ps_len
+#   PKCS1_v1_5.py encrypt  `bord(new_byte[0]) == 0x00` -> `== 0x01`          exit 1  encrypt.loop_inv_preserved (b"".join(ps) == nonzero_draws)
+#   PKCS1_v1_5.py encrypt  b'\x00\x02' -> b'\x00\x01'                        exit 1  encrypt.ensures.rfc8017_7_2_1
+#   PKCS1_v1_5.py encrypt  `self._randfunc(1)` -> `(2)`                      exit 1  encrypt.loop_inv_preserved (len(join) == len(ps), nonzero_draws)
+#   PKCS1_v1_5.py encrypt  `k - mLen - 3` -> `- 4` in the loop guard         exit 1  encrypt.ensures.ps_len, ensures.em_len
+#   PKCS1_v1_5.py encrypt  rename c -> ct                                    exit 0
+#   PKCS1_v1_5.py decrypt  `if size <= 0:` -> `< 0`                          baseline + decrypt.ensures.sentinel
+#   PKCS1_v1_5.py decrypt  `len(sentinel) > k` -> `> k + 1`                  baseline + decrypt.ensures.message, ensures.sentinel
+#   PKCS1_v1_5.py decrypt  `len(sentinel) > k` -> `>= k`                     baseline (equivalent mutant: a k-octet sentinel then takes the
+#                                                                            dummy-sentinel path and comes back as the same object)
+#   PKCS1_v1_5.py decrypt  `len(ciphertext) != k` -> `<`                     baseline + decrypt.raises_iff.ValueError.if, raises_iff.TypeError.only_if
+#   PKCS1_v1_5.py decrypt  final `output[size:]` -> `output[size + 1:]`      baseline + decrypt.ensures.message, ensures.sentinel
+#   PKCS1_v1_5.py decrypt  rename size -> pos (last two lines)               baseline
+#   _pkcs1_oaep_decode.py  `len(em) != len(output)` -> `<`                   exit 1  wrapper.call_pre (len_em_output == len(output))
+#   _pkcs1_oaep_decode.py  c_size_t(len(sentinel)) -> c_size_t(len(em))      exit 1  wrapper.call_pre (len_sentinel == len(sentinel))
+#   _pkcs1_oaep_decode.py  c_size_t(expected_pt_len) -> (expected_pt_len + 1) exit 1  wrapper.ensures.refused
+#   _pkcs1_oaep_decode.py  `return ret` -> `rc = ret; return rc`             exit 0
